@@ -9,7 +9,7 @@ META = {
         "the target's exit is split into the real ABTI_ythread_resume_joiner and the real ABTI_ythread_callback_exit (= exit_to/cancel path; = ABTI_ythread_exit for a joiner on another stream)",
         "the yield-based waits (thread_join_yield_thread) and the target's wait for p_link are cut by unwinding assumptions: schedules in which the other side never proceeds are not violations",
     ],
-    "outside": ["ABT_thread_join_many/free_many with targets that are still running", "external-thread joiner against the exiting ULT as focus (covered from the joiner's side)", "two simultaneous joiners (undefined by the API)", "tasklet targets/joiners", "the release of the descriptor in ABT_thread_free (C15)"],
+    "outside": ["external-thread joiner against the exiting ULT as focus (covered from the joiner's side)", "two simultaneous joiners (undefined by the API)", "tasklet targets/joiners", "the release of the descriptor in ABT_thread_free (C15)"],
 }
 SPIN = ["ABTD_spinlock_acquire.0", "ABTD_spinlock_acquire.1", "thread_join_yield_thread@while", "thread_join_busywait@while", "ABTI_ythread_atomic_get_joiner@while", "ABTI_ythread_resume_joiner@while", "ABTD_futex_suspend@while"]
 
@@ -33,8 +33,8 @@ def obligations(tier):
                  no_std=["--pointer-overflow-check", "--signed-overflow-check", "--undefined-shift-check"],
                  encodes=["ABTI_thread_handle_request_cancel", "ABTI_ythread_resume_joiner", "ABTI_ythread_atomic_get_joiner", "ABTI_thread_terminate", "ABTI_ythread_callback_suspend_join"],
                  bounds="1 cancelled ULT, 1 joiner, <=1 environment step per scheduling point", symbolic="how far the joiner got, when its pieces run", timeout=300))
-    for op, nm in [(0, "free_many"), (1, "join_many"), (2, "join_many_running")]:
-        o.append(Obl(nm + "_holes", "C03/many.c", "ABT_thread_%s (join_many_running: targets still RUNNING, the external caller polls until each has terminated) over a three-entry handle array with ABT_THREAD_NULL entries at every combination of positions (all 8 patterns, enumerated: the routines' control flow depends on nothing else; targets already terminated): every non-NULL entry -- before, between and after holes -- is joined, and for free_many released exactly once with its handle reset" % nm,
+    for op, nm in [(0, "free_many"), (1, "join_many"), (2, "join_many_running"), (3, "free_many_running")]:
+        o.append(Obl(nm + "_holes", "C03/many.c", "ABT_thread_%s (*_running: targets still RUNNING, the external caller polls until each has terminated) over a three-entry handle array with ABT_THREAD_NULL entries at every combination of positions (all 8 patterns, enumerated: the routines' control flow depends on nothing else; targets already terminated): every non-NULL entry -- before, between and after holes -- is joined, and for free_many released exactly once with its handle reset" % nm,
                      defs=["OP=%d" % op], unwind=9, unwindset=["ABTD_spinlock_acquire.0:2", "ABTD_spinlock_acquire.1:2", "thread_join_busywait.0:3"], object_bits=11, backend="cadical", no_std=["--pointer-overflow-check"],
                      encodes=["ABT_thread_free_many", "ABT_thread_join_many", "thread_join", "thread_free"], bounds="3 entries, terminated targets", symbolic="(none: the 8 hole patterns are enumerated; cbmc decides the memory-safety and ledger assertions)"))
     # nesting depth 2 adds nothing here: the only environment agent (the target) is busy while one of its steps runs
